@@ -185,6 +185,18 @@ def run(chk, ctx):
                 typeguard = True
                 continue
             rej = rej.union(r)
+        # anything else that can be raised while an out-of-range integer is
+        # being refused (e.g. while the message is built) is a refusal too
+        for o in E.raises:
+            if not o.exc.primitive:
+                continue
+            try:
+                r = isets.path_set(o.state.kn.atoms, E.P)
+            except isets.NotInterval:
+                continue
+            if not r.is_empty() and r.inter(guard).is_empty() and \
+                    not r == ISet.all():
+                rtypes.add(o.exc.type_name)
         okk = guard == fmt_set(seg) and rej == fmt_set(seg).complement() \
             and rtypes <= {'TypeError'} and typeguard and \
             p.guard_types is not None and p.guard_types <= {'int'}
